@@ -133,6 +133,7 @@ CHECKS["C13"] = {
 }
 
 CHECKS["C17"] = {
+    "mem_gb": {"quick": 0, "thorough": 0},
     "pkg": "./c17", "run": "^TestC17$", "level": "exploration",
     "technique": "runtime monitor on an in-process cluster of real servers: Dataset.SizeInfo on every node vs the sum of harness-known partition sizes, with injected PartitionInfo failures and hangs (gRPC interceptors)",
     "level_text": "Monitor on real anndb.Server clusters in one process (real raft, real gRPC between nodes): seeded topologies of 1..4 nodes, 1..8 partitions with pairwise distinct sizes, replication 1..3; SizeInfo is called repeatedly on every node (all-local, one-remote, several-remote placements) and must equal the sums of the per-partition sizes; then every needed remote lookup is made to fail or hang and the call must fail.",
@@ -145,6 +146,7 @@ CHECKS["C17"] = {
 }
 
 CHECKS["C09"] = {
+    "mem_gb": {"quick": 0, "thorough": 0},
     "pkg": "./c09", "run": "^TestC09$", "level": "exploration",
     "technique": "runtime monitor on an in-process cluster of real servers: Dataset.Search vs exact top-k of the harness copy, intercepted SearchPartitions RPCs attributed by unique query, injected delays / errors / node-down / short deadlines, and concurrent stress",
     "level_text": "Monitor on real anndb.Server clusters in one process: seeded topologies (1..4 nodes, 1..8 partitions of <=20 insert-only items so that each partition's own answer is exact, replication 1..3); every Search must return exactly the top-k of all items (bitwise score sequence) or an error, the SearchPartitions RPCs seen by the interceptors must cover every partition exactly once, a consulted node that fails / is down / answers after the deadline must make the call fail, and 2 x 720 concurrent searches (GOMAXPROCS 2 and 16) exercise the collector/closer interleaving.",
@@ -157,6 +159,7 @@ CHECKS["C09"] = {
 }
 
 CHECKS["C10"] = {
+    "mem_gb": {"quick": 0, "thorough": 0},
     "pkg": "./c10", "run": "^TestC10$", "level": "exploration",
     "technique": "runtime monitor: routing function evaluated over ids x every modulus 1..1024 (range, repeatability, equality across fresh processes) + placement observed on an in-process cluster after writes through every entry node and API path",
     "level_text": "Pure part: 20k (quick) / 200k (thorough) ids (random, all-zero, all-ones, every single bit, halves swapped) x every n in 1..1024: result in range, identical on repeated and concurrent evaluation, identical table digest in two fresh processes. System part: real 3-node clusters with 1/2/5/8 partitions and replication 1-2; each id is written through every entry node and insert path, updated from a second node and removed from a third through single and batch paths, and after each step exactly the replicas of partition route(id, n) hold it and no other partition does.",
@@ -170,6 +173,7 @@ CHECKS["C10"] = {
 }
 
 CHECKS["C11"] = {
+    "mem_gb": {"quick": 0, "thorough": 0},
     "pkg": "./c11", "run": "^TestC11$", "level": "exploration",
     "technique": "runtime monitor on an in-process cluster: acknowledged writes vs owner-partition contents, raft-log growth on rejected writes (RecWAL), batch error maps vs a model, and caller outcomes under a forced apply-before-wait schedule (pause point) and concurrent callers",
     "level_text": "Monitor on real clusters of 1..3 nodes: (a) every acknowledged insert is on a replica of the owner immediately and on all at quiescence; (c) dimension mismatches are rejected and no partition raft log grows (durable view of the WAL wrapper); (d) batches mixing present, absent and wrong-dimension items return exactly the model's error map and apply the rest; (e) callers are held at the pause point between Propose and the wait until their own entry has been applied and must still get their own outcome, then 24 concurrent callers run insert/duplicate/update/remove/absent sequences whose outcomes are all distinguishable.",
@@ -179,4 +183,31 @@ CHECKS["C11"] = {
     "rule": "case c = topology (1..3 nodes, 1..4 partitions, replication 1..2); 12 acks, 6 dimension cases, 6 batch maps, forced and concurrent caller sequences; all non-trivial; distinct = digest of the topology",
     "assumptions": ["error identity across the gRPC proxy is compared on the message text"],
     "min": {"any": {"acks_checked": 30, "caller_outcomes_checked": 500, "batch_maps_checked": 10, "unreachable_owner_writes": 3}},
+}
+
+CHECKS["C03"] = {
+    "mem_gb": {"quick": 0, "thorough": 0},
+    "pkg": "./c03", "run": "^TestC03$", "level": "fault_enumeration",
+    "technique": "runtime monitor with fault enumeration: crash armed at every durable-write boundary (before/after each Save / snapshot install / CreateSnapshot of the raft log stores) of a seeded workload on in-process real servers, restart on the same data directory, recovered partition contents vs acknowledged-history oracle",
+    "level_text": "A pilot run of the seeded workload (4 sequential per-id clients, single and batch insert/update/remove with unique version tags, forced snapshot+compaction of the partition and zero groups) counts the durable writes K of the victim node; the workload is then re-run once for every k in 1..K and both sides with a crash armed there (1 node / 1 replica: all boundaries; 3 nodes / 3 replicas with a minority crash while clients continue: 20 sampled boundaries quick, all thorough). After restart the recovered contents of every replica must be the acknowledged state of every id or that plus the one open operation, with nothing never submitted; the workload then continues and is compared again.",
+    "level_note": "Process-crash model: the crashing node's ready-loops end at the armed boundary (other groups of the node at their next event), nothing is written afterwards, Badger is then closed and reopened; power loss / torn writes inside Badger are not modelled. Goroutine interleaving varies between the pilot and the armed runs, so a boundary index may denote a different write; the evidence lists the distinct boundary kinds actually hit.",
+    "shards": {"quick": 8, "thorough": 16},
+    "timeout": {"quick": 900, "thorough": 3400},
+    "exhaustive": "durable-write boundaries 1..K x {before, after} of the pilot workload on the 1-node topology",
+    "rule": "case = (seed, topology, boundary k, side); non-trivial = the armed crash point was reached and fired; distinct = digest of the case description",
+    "assumptions": ["an in-process crash (ready-loops ended, no further writes, Badger closed and reopened) is a legal process-crash schedule", "acknowledged = call returned success before the crash flag was set, decided under one mutex"],
+    "min": {"any": {"crashes": 20, "recovered_states_checked": 20}},
+}
+
+CHECKS["C20"] = {
+    "pkg": "./c20", "run": "^TestC20$", "level": "fault_enumeration",
+    "mem_gb": {"quick": 0, "thorough": 0},
+    "technique": "runtime monitor on an in-process cluster of real servers (real gRPC raft transport): address-book equality on every live member after a logical marker, after joins (sequential and concurrent), removals, forced compaction of the membership log and restart of any member",
+    "level_text": "Monitor on real clusters of 2..5 nodes: after every acknowledged join / removal a marker catalogue entry is proposed and, once every live member has applied it, each member's Conn.Nodes() must equal the acknowledged membership with the announced addresses; the same after restarting a member (bootstrap node or joiner), with and without the zero group's log having been compacted into a snapshot first.",
+    "level_note": "Fault sequences are a fixed seeded family (sequential vs concurrent joins x removal x compaction x which member restarts), not message-level faults; quiescence is logical (marker applied), the wall-clock watchdog only yields inconclusive.",
+    "shards": {"quick": 8, "thorough": 16},
+    "timeout": {"quick": 900, "thorough": 3400},
+    "rule": "case c = (nodes 2..5, concurrent joins?, removal?, compaction before restart?, restarted member); non-trivial = all phases ran to the final comparison; distinct = digest of the case description",
+    "assumptions": ["a marker entry applied on a member implies every earlier membership entry was applied there (single log order)"],
+    "min": {"any": {"books_checked": 20}},
 }
